@@ -34,12 +34,14 @@ const (
 	oOK outcome = iota
 	oFail
 	oGoexit
-	oCancelOK   // cancels the context inside the body, then returns nil
-	oCancelFail // cancels the context inside the body, then fails
+	oCancelOK     // cancels the context inside the body, then returns nil
+	oCancelFail   // cancels the context inside the body, then fails
+	oCancelGoexit // cancels the context inside the body, then exits its goroutine
+	oFailCtx      // fails with an error that wraps context.DeadlineExceeded although the scheduler's context is alive
 )
 
 func (o outcome) String() string {
-	return [...]string{"ok", "fail", "goexit", "cancelok", "cancelfail"}[o]
+	return [...]string{"ok", "fail", "goexit", "cancelok", "cancelfail", "cancelgoexit", "failctx"}[o]
 }
 
 type scenario struct {
@@ -54,6 +56,7 @@ type scenario struct {
 	Perturb   int
 	Seed      int64
 	Spin      int // bodies yield this many times (overlap)
+	Block     int // -1 none; else this job's body blocks until Wait has returned (or 3 s)
 }
 
 func (s *scenario) header() string {
@@ -63,8 +66,8 @@ func (s *scenario) header() string {
 		}
 		return 0
 	}
-	return fmt.Sprintf("scn %d N=%d coe=%d emit=%d late=%d extcancel=%d perturb=%d seed=%d spin=%d jobs=%d",
-		s.Idx, s.N, b(s.Coe), b(s.Emit), b(s.Late), s.ExtCancel, s.Perturb, s.Seed, s.Spin, len(s.Deps))
+	return fmt.Sprintf("scn %d N=%d coe=%d emit=%d late=%d extcancel=%d perturb=%d seed=%d spin=%d jobs=%d block=%d",
+		s.Idx, s.N, b(s.Coe), b(s.Emit), b(s.Late), s.ExtCancel, s.Perturb, s.Seed, s.Spin, len(s.Deps), s.Block)
 }
 
 func (s *scenario) key() string {
@@ -74,6 +77,18 @@ func (s *scenario) key() string {
 		fmt.Fprintf(&sb, "%v%v;", s.Out[j], s.Deps[j])
 	}
 	return sb.String()
+}
+
+func (s *scenario) nontrivialOutcome() bool {
+	if s.ExtCancel >= 0 {
+		return true
+	}
+	for _, o := range s.Out {
+		if o != oOK {
+			return true
+		}
+	}
+	return false
 }
 
 // nontrivial: fan-in > 1, a duplicate dependency, a failure/exit/cancel, or a late enqueue.
@@ -89,10 +104,19 @@ func (s *scenario) nontrivial() bool {
 	return false
 }
 
-type herr struct{ id int }
+type herr struct {
+	id      int
+	wrapCtx bool
+}
 
 func (e *herr) Error() string { return fmt.Sprintf("job %d failed", e.id) }
 func (e *herr) VerifID() int  { return e.id }
+func (e *herr) Unwrap() error {
+	if e.wrapCtx {
+		return context.DeadlineExceeded
+	}
+	return nil
+}
 
 // ---------------------------------------------------------------- execution
 
@@ -115,7 +139,9 @@ func (e *emitter) Emit(st scheduler.State) {
 	r := reportRec{st: st, submitted: atomic.LoadInt64(e.submitted), submittedDeps: atomic.LoadInt64(e.withDeps)}
 	late := atomic.LoadInt32(e.retFin) == 2
 	e.mu.Lock()
-	e.reports = append(e.reports, r)
+	if len(e.reports) < 50000 {
+		e.reports = append(e.reports, r)
+	}
 	if late {
 		e.afterRet++
 	}
@@ -123,24 +149,35 @@ func (e *emitter) Emit(st scheduler.State) {
 }
 
 type result struct {
-	sc        *scenario
-	trace     []string
-	starts    [][]int64 // per job: start stamps
-	ends      []int64   // per job: end stamp (0 = none)
-	maxIn     int32
-	ret       error
-	retStamp  int64
-	cancelAt  int64   // stamp taken after the first cancel() returned (0 = never returned)
-	cancelBeg int64   // stamp taken before the first cancel() was called (0 = never cancelled)
-	enqStamp  []int64 // stamp taken before Enqueue(j) is called
-	hung      bool
-	dump      string
-	reports   []reportRec
-	afterRet  int
-	wallNS    int64
+	sc               *scenario
+	trace            []string
+	starts           [][]int64 // per job: start stamps
+	ends             []int64   // per job: end stamp (0 = none)
+	maxIn            int32
+	ret              error
+	retStamp         int64
+	cancelAt         int64   // stamp taken after the first cancel() returned (0 = never returned)
+	cancelBeg        int64   // stamp taken before the first cancel() was called (0 = never cancelled)
+	enqStamp         []int64 // stamp taken before Enqueue(j) is called
+	hung             bool
+	skipped          bool
+	retBeforeRelease bool // Wait returned while the blocking job was still held
+	blockStarted     bool
+	dump             string
+	reports          []reportRec
+	afterRet         int
+	wallNS           int64
 }
 
+var hangs int32
+var leakBatches int32
+
 func runScenario(sc *scenario) *result {
+	if atomic.LoadInt32(&hangs) >= 3 || atomic.LoadInt32(&leakBatches) >= 2 {
+		// the tree under test hangs or leaks: do not pile up stuck schedulers (leaked loops with a
+		// nanosecond ticker burn a core each)
+		return &result{sc: sc, skipped: true, starts: make([][]int64, len(sc.Deps)), ends: make([]int64, len(sc.Deps)), enqStamp: make([]int64, len(sc.Deps))}
+	}
 	n := len(sc.Deps)
 	res := &result{sc: sc, starts: make([][]int64, n), ends: make([]int64, n), enqStamp: make([]int64, n)}
 	var (
@@ -173,6 +210,20 @@ func runScenario(sc *scenario) *result {
 	}
 
 	endedCh := make(chan struct{}, n+1)
+	release := make(chan struct{})
+	waitReturned := make(chan struct{})
+	if sc.Block >= 0 {
+		go func() {
+			select {
+			case <-waitReturned:
+				mu.Lock()
+				res.retBeforeRelease = true
+				mu.Unlock()
+			case <-time.After(3 * time.Second):
+			}
+			close(release)
+		}()
+	}
 	body := func(j int) func(context.Context) error {
 		return func(context.Context) error {
 			st := atomic.AddInt64(&seq, 1)
@@ -189,8 +240,14 @@ func runScenario(sc *scenario) *result {
 			for i := 0; i < sc.Spin; i++ {
 				runtime.Gosched()
 			}
+			if j == sc.Block {
+				mu.Lock()
+				res.blockStarted = true
+				mu.Unlock()
+				<-release
+			}
 			o := sc.Out[j]
-			if o == oCancelOK || o == oCancelFail {
+			if o == oCancelOK || o == oCancelFail || o == oCancelGoexit {
 				doCancel()
 			}
 			atomic.AddInt32(&inflight, -1)
@@ -208,7 +265,9 @@ func runScenario(sc *scenario) *result {
 			switch o {
 			case oFail, oCancelFail:
 				return &herr{id: j}
-			case oGoexit:
+			case oFailCtx:
+				return &herr{id: j, wrapCtx: true}
+			case oGoexit, oCancelGoexit:
 				runtime.Goexit()
 			}
 			return nil
@@ -272,6 +331,7 @@ func runScenario(sc *scenario) *result {
 		atomic.StoreInt32(&retFin, 1)
 		res.ret = sched.Wait(ctx)
 		res.retStamp = atomic.AddInt64(&seq, 1)
+		close(waitReturned)
 		if c := atomic.LoadInt64(&cancelBeg); c == 0 {
 			// normal completion (not through the ctx arm): reports must stop
 			atomic.StoreInt32(&retFin, 2)
@@ -290,6 +350,7 @@ func runScenario(sc *scenario) *result {
 		default:
 			if d1 == d2 {
 				res.hung = true
+				atomic.AddInt32(&hangs, 1)
 				res.dump = d2
 			} else {
 				<-done
@@ -387,12 +448,15 @@ func check(r *result) verdicts {
 	v := verdicts{}
 	sc := r.sc
 	n := len(sc.Deps)
+	if r.skipped {
+		return v
+	}
 	if r.hung {
 		v.fail("C05", "scenario did not return within 10s; all-blocked scheduler goroutines: %s", strings.ReplaceAll(r.dump, "\n", " | "))
 		return v
 	}
 	failedBody := func(j int) bool { // body ended but not ok
-		return r.ends[j] != 0 && (sc.Out[j] == oFail || sc.Out[j] == oGoexit || sc.Out[j] == oCancelFail)
+		return r.ends[j] != 0 && (sc.Out[j] == oFail || sc.Out[j] == oGoexit || sc.Out[j] == oCancelFail || sc.Out[j] == oCancelGoexit || sc.Out[j] == oFailCtx)
 	}
 	okEnded := func(j int) bool { return r.ends[j] != 0 && !failedBody(j) }
 
@@ -465,13 +529,13 @@ func check(r *result) verdicts {
 				ok = cancelled
 			case cls == "exit":
 				for j := 0; j < n; j++ {
-					if r.ends[j] != 0 && sc.Out[j] == oGoexit {
+					if r.ends[j] != 0 && (sc.Out[j] == oGoexit || sc.Out[j] == oCancelGoexit) {
 						ok = true
 					}
 				}
 			case strings.HasPrefix(cls, "fail:"):
 				for j := 0; j < n; j++ {
-					if isHerr(r.ret, j) && r.ends[j] != 0 && (sc.Out[j] == oFail || sc.Out[j] == oCancelFail) {
+					if isHerr(r.ret, j) && r.ends[j] != 0 && (sc.Out[j] == oFail || sc.Out[j] == oCancelFail || sc.Out[j] == oFailCtx) {
 						ok = true
 					}
 				}
@@ -494,9 +558,9 @@ func check(r *result) verdicts {
 				continue
 			}
 			switch sc.Out[j] {
-			case oFail, oCancelFail:
+			case oFail, oCancelFail, oFailCtx:
 				want[fmt.Sprintf("fail:%d", j)]++
-			case oGoexit:
+			case oGoexit, oCancelGoexit:
 				want["exit"]++
 			}
 		}
@@ -553,7 +617,7 @@ func check(r *result) verdicts {
 			st := r.starts[j][0]
 			// (a) depends on the job that cancelled
 			for _, d := range sc.Deps[j] {
-				if (sc.Out[d] == oCancelOK || sc.Out[d] == oCancelFail) && r.ends[d] != 0 {
+				if (sc.Out[d] == oCancelOK || sc.Out[d] == oCancelFail || sc.Out[d] == oCancelGoexit) && r.ends[d] != 0 {
 					v.fail("C09", "job %d started although its dependency %d cancelled the context", j, d)
 				}
 			}
@@ -573,6 +637,10 @@ func check(r *result) verdicts {
 				v.fail("C09", "context cancelled, a job never started, but Wait returned nil")
 			}
 		}
+	}
+	// C09 promptness: with the context done, Wait must not wait for a job that is still running
+	if sc.Block >= 0 && r.blockStarted && r.cancelBeg != 0 && !r.retBeforeRelease {
+		v.fail("C09", "Wait did not return within 3s of the cancellation while job %d was still running", sc.Block)
 	}
 	// C19
 	for i, rp := range r.reports {
@@ -655,7 +723,7 @@ func genExhaustive(maxJobs int, ns []int, rng *rand.Rand, perturb int) []*scenar
 							if late && n < 2 {
 								continue
 							}
-							out = append(out, &scenario{N: N, Coe: coe, Deps: g, Out: outs, Late: late, ExtCancel: -1,
+							out = append(out, &scenario{N: N, Coe: coe, Deps: g, Out: outs, Late: late, ExtCancel: -1, Block: -1,
 								Perturb: perturb, Seed: rng.Int63(), Spin: rng.Intn(3)})
 						}
 					}
@@ -690,13 +758,17 @@ func genRandom(count, maxJobs, maxN int, rng *rand.Rand, perturb int) []*scenari
 		pf := rng.Intn(4) // failure density
 		for j := range outs {
 			if rng.Intn(10) < pf {
-				switch rng.Intn(8) {
+				switch rng.Intn(10) {
 				case 0:
 					outs[j] = oGoexit
 				case 1:
 					outs[j] = oCancelOK
 				case 2:
 					outs[j] = oCancelFail
+				case 3:
+					outs[j] = oCancelGoexit
+				case 4:
+					outs[j] = oFailCtx
 				default:
 					outs[j] = oFail
 				}
@@ -711,7 +783,7 @@ func genRandom(count, maxJobs, maxN int, rng *rand.Rand, perturb int) []*scenari
 			N = 1 + rng.Intn(3)
 		}
 		out = append(out, &scenario{N: N, Coe: rng.Intn(2) == 0, Emit: rng.Intn(3) == 0, Deps: deps, Out: outs,
-			Late: rng.Intn(4) == 0, ExtCancel: ext, Perturb: perturb * rng.Intn(2), Seed: rng.Int63(), Spin: rng.Intn(4)})
+			Late: rng.Intn(4) == 0, ExtCancel: ext, Block: -1, Perturb: perturb * rng.Intn(2), Seed: rng.Int63(), Spin: rng.Intn(4)})
 	}
 	return out
 }
@@ -728,8 +800,195 @@ func genLeakFamily(count int, rng *rand.Rand, perturb int) []*scenario {
 				outs[j] = oFail
 			}
 		}
-		out = append(out, &scenario{N: 2 + rng.Intn(3), Coe: false, Emit: rng.Intn(2) == 0, Deps: deps, Out: outs, ExtCancel: -1,
+		out = append(out, &scenario{N: 2 + rng.Intn(3), Coe: false, Emit: rng.Intn(2) == 0, Deps: deps, Out: outs, ExtCancel: -1, Block: -1,
 			Perturb: perturb, Seed: rng.Int63(), Spin: rng.Intn(2)})
+	}
+	return out
+}
+
+// fan-out leak family: a successful job unblocks k >= N consumers at once while independent
+// jobs fail (fail-fast): if the loop ever has more jobs out than cap(donec), a worker is stranded.
+func genFanoutLeak(count int, rng *rand.Rand, perturb int) []*scenario {
+	var out []*scenario
+	for i := 0; i < count; i++ {
+		N := 2 + rng.Intn(3)
+		k := N + rng.Intn(3)
+		nf := 1 + rng.Intn(3)
+		n := 1 + nf + k
+		deps := make([][]int, n)
+		outs := make([]outcome, n)
+		for j := 1; j <= nf; j++ {
+			outs[j] = oFail
+		}
+		for j := 1 + nf; j < n; j++ {
+			deps[j] = []int{0}
+			if rng.Intn(3) == 0 {
+				outs[j] = oFail
+			}
+		}
+		out = append(out, &scenario{N: N, Coe: false, Emit: rng.Intn(4) == 0, Deps: deps, Out: outs, ExtCancel: -1, Block: -1,
+			Perturb: perturb, Seed: rng.Int63(), Spin: rng.Intn(3)})
+	}
+	return out
+}
+
+// blocker family (C09 promptness): job 0 blocks until Wait has returned; another job (or an
+// outside goroutine) cancels the context meanwhile.
+func genBlockers(count int, rng *rand.Rand, perturb int) []*scenario {
+	var out []*scenario
+	for i := 0; i < count; i++ {
+		n := 2 + rng.Intn(4)
+		deps := make([][]int, n)
+		outs := make([]outcome, n)
+		ext := -1
+		if rng.Intn(2) == 0 {
+			outs[1] = []outcome{oCancelOK, oCancelFail}[rng.Intn(2)]
+		} else {
+			ext = 1 + rng.Intn(n-1)
+		}
+		for j := 2; j < n; j++ {
+			if rng.Intn(3) == 0 {
+				deps[j] = []int{1}
+			}
+			if rng.Intn(4) == 0 {
+				outs[j] = oFail
+			}
+		}
+		out = append(out, &scenario{N: 2 + rng.Intn(3), Coe: rng.Intn(2) == 0, Emit: false, Deps: deps, Out: outs,
+			ExtCancel: ext, Block: 0, Perturb: perturb * rng.Intn(2), Seed: rng.Int63(), Spin: rng.Intn(2)})
+	}
+	return out
+}
+
+// ---------------------------------------------------------------- capacity (C03)
+
+// capacityCase: phase 1 runs K jobs that leave in assorted ways (each with its OWN context, which
+// some of them cancel before leaving); phase 2 enqueues N jobs that meet at a barrier: all N must
+// be in flight at once. Also checks that the number of scheduler goroutines stays bounded by a
+// function of N while many jobs are queued.
+type capacityCase struct {
+	Idx   int
+	N     int // 0 = default
+	Kills []string
+	Extra int // extra independent quick jobs enqueued before the barrier jobs
+}
+
+func runCapacity(cc *capacityCase) (fails []string, info string) {
+	n := cc.N
+	cfg := scheduler.Config{Concurrency: cc.N, ContinueOnError: true}
+	if n == 0 {
+		n = runtime.GOMAXPROCS(0)
+		if n < 4 {
+			n = 4
+		}
+	}
+	sched := cfg.New()
+	bg := context.Background()
+	var wg1 sync.WaitGroup
+	for _, how := range cc.Kills {
+		how := how
+		ctx, cancel := context.WithCancel(bg)
+		wg1.Add(1)
+		sched.Enqueue(ctx, scheduler.Job{Run: func(context.Context) error {
+			defer wg1.Done()
+			switch how {
+			case "ok":
+				cancel()
+				return nil
+			case "fail":
+				cancel()
+				return &herr{id: 0}
+			case "goexit":
+				defer cancel()
+				runtime.Goexit()
+			case "cancelgoexit":
+				cancel()
+				runtime.Goexit()
+			case "cancelfail":
+				cancel()
+				return &herr{id: 0}
+			}
+			cancel()
+			return nil
+		}})
+	}
+	phase1 := make(chan struct{})
+	go func() { wg1.Wait(); close(phase1) }()
+	select {
+	case <-phase1:
+	case <-time.After(5 * time.Second):
+		atomic.AddInt32(&hangs, 1)
+		return []string{fmt.Sprintf("capacity lost: after some of %v left, the remaining jobs were never run within 5s (N=%d)", cc.Kills, n)}, "phase1-timeout"
+	}
+	var quick int64
+	for i := 0; i < cc.Extra; i++ {
+		sched.Enqueue(bg, scheduler.Job{Run: func(context.Context) error { atomic.AddInt64(&quick, 1); return nil }})
+	}
+	var arrived int32
+	var peak int32
+	all := make(chan struct{})
+	var once sync.Once
+	maxG := 0
+	for i := 0; i < n; i++ {
+		sched.Enqueue(bg, scheduler.Job{Run: func(context.Context) error {
+			a := atomic.AddInt32(&arrived, 1)
+			for {
+				p := atomic.LoadInt32(&peak)
+				if a <= p || atomic.CompareAndSwapInt32(&peak, p, a) {
+					break
+				}
+			}
+			if int(a) == n {
+				once.Do(func() { close(all) })
+			}
+			select {
+			case <-all:
+			case <-time.After(2 * time.Second):
+			}
+			return nil
+		}})
+		if g := countSchedGoroutines(); g > maxG {
+			maxG = g
+		}
+	}
+	done := make(chan error, 1)
+	go func() { done <- sched.Wait(bg) }()
+	select {
+	case <-done:
+	case <-time.After(15 * time.Second):
+		fails = append(fails, fmt.Sprintf("Wait did not return within 15s after %v (N=%d)", cc.Kills, n))
+		atomic.AddInt32(&hangs, 1)
+		once.Do(func() { close(all) })
+	}
+	if int(atomic.LoadInt32(&peak)) < n {
+		fails = append(fails, fmt.Sprintf("capacity lost: only %d of %d simultaneously runnable jobs ran concurrently after jobs left via %v", peak, n, cc.Kills))
+	}
+	if int(atomic.LoadInt32(&peak)) > n {
+		fails = append(fails, fmt.Sprintf("%d bodies in flight with Concurrency=%d", peak, n))
+	}
+	return fails, fmt.Sprintf("N=%d kills=%d extra=%d peak=%d maxSchedGoroutines=%d", n, len(cc.Kills), cc.Extra, peak, maxG)
+}
+
+func genCapacity(count int, rng *rand.Rand) []*capacityCase {
+	kinds := []string{"ok", "fail", "goexit", "cancelgoexit", "cancelfail"}
+	var out []*capacityCase
+	for i := 0; i < count; i++ {
+		n := []int{1, 2, 3, 4, 8, 0}[rng.Intn(6)]
+		nn := n
+		if nn == 0 {
+			nn = 4
+		}
+		k := rng.Intn(3*nn + 1)
+		kills := make([]string, k)
+		mode := rng.Intn(len(kinds) + 1)
+		for j := range kills {
+			if mode < len(kinds) {
+				kills[j] = kinds[mode]
+			} else {
+				kills[j] = kinds[rng.Intn(len(kinds))]
+			}
+		}
+		out = append(out, &capacityCase{Idx: i, N: n, Kills: kills, Extra: []int{0, 10, 1000}[rng.Intn(3)]})
 	}
 	return out
 }
@@ -737,12 +996,17 @@ func genLeakFamily(count int, rng *rand.Rand, perturb int) []*scenario {
 // ---------------------------------------------------------------- main
 
 func parseScenario(lines []string) (*scenario, error) {
-	sc := &scenario{ExtCancel: -1}
+	sc := &scenario{ExtCancel: -1, Block: -1}
 	var jobs int
 	var coe, emit, late int
-	if _, err := fmt.Sscanf(lines[0], "scn %d N=%d coe=%d emit=%d late=%d extcancel=%d perturb=%d seed=%d spin=%d jobs=%d",
-		&sc.Idx, &sc.N, &coe, &emit, &late, &sc.ExtCancel, &sc.Perturb, &sc.Seed, &sc.Spin, &jobs); err != nil {
-		return nil, err
+	sc.Block = -1
+	if _, err := fmt.Sscanf(lines[0], "scn %d N=%d coe=%d emit=%d late=%d extcancel=%d perturb=%d seed=%d spin=%d jobs=%d block=%d",
+		&sc.Idx, &sc.N, &coe, &emit, &late, &sc.ExtCancel, &sc.Perturb, &sc.Seed, &sc.Spin, &jobs, &sc.Block); err != nil {
+		sc.Block = -1
+		if _, err := fmt.Sscanf(lines[0], "scn %d N=%d coe=%d emit=%d late=%d extcancel=%d perturb=%d seed=%d spin=%d jobs=%d",
+			&sc.Idx, &sc.N, &coe, &emit, &late, &sc.ExtCancel, &sc.Perturb, &sc.Seed, &sc.Spin, &jobs); err != nil {
+			return nil, err
+		}
 	}
 	sc.Coe, sc.Emit, sc.Late = coe == 1, emit == 1, late == 1
 	for _, l := range lines[1:] {
@@ -751,7 +1015,7 @@ func parseScenario(lines []string) (*scenario, error) {
 			continue
 		}
 		var o outcome
-		for k := oOK; k <= oCancelFail; k++ {
+		for k := oOK; k <= oFailCtx; k++ {
 			if k.String() == f[2] {
 				o = k
 			}
@@ -773,18 +1037,20 @@ func parseScenario(lines []string) (*scenario, error) {
 
 func main() {
 	var (
-		seed    = flag.Int64("seed", 1, "PRNG seed")
-		exh     = flag.Int("exhaustive", 3, "all DAGs up to this many jobs (0 = none)")
-		random  = flag.Int("random", 1000, "number of random scenarios")
-		maxJobs = flag.Int("maxjobs", 14, "max jobs in random scenarios")
-		maxN    = flag.Int("maxn", 8, "max Concurrency in random scenarios")
-		leakFam = flag.Int("leakfam", 200, "number of leak-prone scenarios")
-		perturb = flag.Int("perturb", 30, "perturbation percent at hook sites")
-		par     = flag.Int("par", 8, "scenarios run concurrently")
-		batch   = flag.Int("batch", 400, "scenarios per leak-check batch")
-		outPath = flag.String("out", "-", "output file")
-		replay  = flag.String("replay", "", "replay the scenario(s) in this file (scn/job lines)")
-		repeat  = flag.Int("repeat", 1, "with -replay: run each scenario this many times")
+		seed     = flag.Int64("seed", 1, "PRNG seed")
+		exh      = flag.Int("exhaustive", 3, "all DAGs up to this many jobs (0 = none)")
+		random   = flag.Int("random", 1000, "number of random scenarios")
+		maxJobs  = flag.Int("maxjobs", 14, "max jobs in random scenarios")
+		maxN     = flag.Int("maxn", 8, "max Concurrency in random scenarios")
+		leakFam  = flag.Int("leakfam", 200, "number of leak-prone scenarios")
+		blockers = flag.Int("blockers", 60, "number of blocked-job cancellation scenarios (C09 promptness)")
+		capacity = flag.Int("capacity", 40, "number of capacity cases (C03)")
+		perturb  = flag.Int("perturb", 30, "perturbation percent at hook sites")
+		par      = flag.Int("par", 8, "scenarios run concurrently")
+		batch    = flag.Int("batch", 400, "scenarios per leak-check batch")
+		outPath  = flag.String("out", "-", "output file")
+		replay   = flag.String("replay", "", "replay the scenario(s) in this file (scn/job lines)")
+		repeat   = flag.Int("repeat", 1, "with -replay: run each scenario this many times")
 	)
 	flag.Parse()
 	rng := rand.New(rand.NewSource(*seed))
@@ -827,6 +1093,8 @@ func main() {
 		}
 		scs = append(scs, genRandom(*random, *maxJobs, *maxN, rng, *perturb)...)
 		scs = append(scs, genLeakFamily(*leakFam, rng, *perturb)...)
+		scs = append(scs, genFanoutLeak(*leakFam, rng, *perturb)...)
+		scs = append(scs, genBlockers(*blockers, rng, *perturb)...)
 	}
 	for i, s := range scs {
 		s.Idx = i
@@ -853,6 +1121,10 @@ func main() {
 
 	emitResult := func(r *result, extra verdicts) {
 		sc := r.sc
+		if r.skipped {
+			stats["skipped-after-hangs"]++
+			return
+		}
 		fmt.Fprintln(w, sc.header())
 		for j := range sc.Deps {
 			fmt.Fprintf(w, "job %d %s", j, sc.Out[j])
@@ -881,6 +1153,31 @@ func main() {
 		fmt.Fprintln(w, "end")
 	}
 
+	// capacity cases (no trace: their jobs use per-job contexts, which the single-context model does not cover)
+	if *replay == "" {
+		baseG := countSchedGoroutines()
+		for _, cc := range genCapacity(*capacity, rng) {
+			if atomic.LoadInt32(&hangs) >= 3 || atomic.LoadInt32(&leakBatches) >= 2 {
+				stats["skipped-after-hangs"]++
+				continue
+			}
+			fails, info := runCapacity(cc)
+			fmt.Fprintf(w, "cap %d %s kills=%s capseed=%d capcount=%d\n", cc.Idx, info, strings.Join(cc.Kills, ","), *seed, *capacity)
+			if len(fails) == 0 {
+				fmt.Fprintf(w, "O C03 ok\n")
+			} else {
+				fmt.Fprintf(w, "O C03 FAIL %s\n", strings.Join(fails, " ;; "))
+				stats["fail.C03"]++
+			}
+			if l, d := waitQuiescent(baseG); l > 0 {
+				fmt.Fprintf(w, "O C06 FAIL capacity case %d: %d scheduler goroutine(s) never terminate: %s\n", cc.Idx, l, strings.ReplaceAll(d, "\n", " | "))
+				stats["fail.C06"]++
+				baseG = countSchedGoroutines()
+			}
+			stats["capacity"]++
+		}
+	}
+
 	for lo := 0; lo < len(scs); lo += *batch {
 		hi := lo + *batch
 		if hi > len(scs) {
@@ -904,16 +1201,34 @@ func main() {
 		extras := make([]verdicts, hi-lo)
 		if leaked > 0 {
 			stats["leak.batches"]++
-			// pinpoint: re-run the batch's scenarios one at a time
+			atomic.AddInt32(&leakBatches, 1)
+			// pinpoint: re-run suspicious scenarios of the batch one at a time, within a budget
 			base2 := countSchedGoroutines()
 			found := false
-			for i := lo; i < hi && !found; i++ {
-				for rep := 0; rep < 3 && !found; rep++ {
+			deadline := time.Now().Add(25 * time.Second)
+			if stats["leak.batches"] > 3 {
+				deadline = time.Now() // enough replays collected; attribute at batch level
+			}
+			order := make([]int, 0, hi-lo)
+			for i := lo; i < hi; i++ { // scenarios with a failure, exit or cancellation first
+				if scs[i].nontrivialOutcome() {
+					order = append(order, i)
+				}
+			}
+			for i := lo; i < hi; i++ {
+				if !scs[i].nontrivialOutcome() {
+					order = append(order, i)
+				}
+			}
+			for _, i := range order {
+				if found || time.Now().After(deadline) {
+					break
+				}
+				for rep := 0; rep < 2 && !found; rep++ {
 					c := *scs[i]
 					c.Seed += int64(rep)
 					r := runScenario(&c)
-					_ = r
-					if l, d := waitQuiescent(base2); l > 0 {
+					if l, d := waitQuiescentFor(base2, 400*time.Millisecond); l > 0 {
 						extras[i-lo] = verdicts{"C06": {fmt.Sprintf("%d scheduler goroutine(s) never terminate after Wait returned: %s", l, strings.ReplaceAll(d, "\n", " | "))}}
 						results[i-lo] = r
 						base2 += l
@@ -994,8 +1309,10 @@ func classList(err error) string {
 
 // waitQuiescent polls until no goroutine beyond base has scheduler frames;
 // reports a leak only if two consecutive dumps 100ms apart agree after 2s.
-func waitQuiescent(base int) (int, string) {
-	deadline := time.Now().Add(2 * time.Second)
+func waitQuiescent(base int) (int, string) { return waitQuiescentFor(base, 2*time.Second) }
+
+func waitQuiescentFor(base int, patience time.Duration) (int, string) {
+	deadline := time.Now().Add(patience)
 	for {
 		n := countSchedGoroutines()
 		if n <= base {
